@@ -156,7 +156,7 @@ func quad(f func(float64) float64, a, b, h float64) float64 {
 
 func xGrid(r *hx.Rand) []float64 {
 	xs := []float64{0}
-	for _, v := range []float64{1e-6, 1e-3, 0.01, 0.1, 0.25, 0.5, 0.75, 1, 1.25, 1.5, 1.7, 1.75, 2, 2.5, 3, 4, 5, 6.5, 8, 10, 15, 20, 30, 40, 50} {
+	for _, v := range []float64{1e-9, 1e-8, 1e-7, 1e-6, 1e-5, 1e-4, 1e-3, 0.01, 0.1, 0.25, 0.5, 0.75, 1, 1.25, 1.5, 1.7, 1.75, 2, 2.5, 3, 4, 5, 6.5, 8, 10, 15, 20, 30, 40, 50} {
 		xs = append(xs, v, -v)
 	}
 	for i := 0; i < 6; i++ { // random points and close pairs
@@ -177,7 +177,7 @@ type cdfDist interface {
 // tbl(x) returns the argument at which the code evaluates its transcendental parameter for x and
 // the value there (t: the incomplete beta argument and I; normal: the erfc argument and erfc);
 // the float64 instance of the model recomputes the argument itself and looks the value up.
-func gridCase(kind, params string, d cdfDist, inv func(float64) float64, centre, scale float64, xs []float64, tag string, tbl func(float64) (float64, float64)) {
+func gridCase(kind, params string, d cdfDist, inv func(float64) float64, centre, scale float64, xs []float64, tag string, tbl func(float64) (float64, float64, float64)) {
 	F := make([]float64, len(xs))
 	Q := make([]float64, len(xs))
 	P := make([]float64, len(xs))
@@ -204,13 +204,14 @@ func gridCase(kind, params string, d cdfDist, inv func(float64) float64, centre,
 		}
 	})
 	A := make([]float64, len(xs))
+	A2 := make([]float64, len(xs))
 	B := make([]float64, len(xs))
 	guard(kind, func() {
 		for i, x := range xs {
-			A[i], B[i] = tbl(x)
+			A[i], A2[i], B[i] = tbl(x)
 		}
 	})
-	hx.Printf("case %d kind=%s %s c=%s xs=%s F=%s Q=%s P=%s V=%s A=%s B=%s tag=%s\n", id, kind, params, fb(centre), fbList(xs), fbList(F), fbList(Q), fbList(P), fbList(V), fbList(A), fbList(B), tag)
+	hx.Printf("case %d kind=%s %s c=%s xs=%s F=%s Q=%s P=%s V=%s A=%s A2=%s B=%s tag=%s\n", id, kind, params, fb(centre), fbList(xs), fbList(F), fbList(Q), fbList(P), fbList(V), fbList(A), fbList(A2), fbList(B), tag)
 	if ok {
 		hx.Printf("obs %d F=%s\n", id, fbList(F))
 		hx.Printf("sobs %d range=ok mono=ok sym=ok quad=ok inv=ok\n", id)
@@ -236,6 +237,7 @@ func distCases(r *hx.Rand) {
 	initGL(24)
 	var nus []float64
 	if shard == 0 {
+		// includes the witnesses of F22 (nu = 100, 1e4, 1e5 at |x| = 1e-9 .. 1e-3, and the inverse at 1/2)
 		nus = append(nus, 1, 1.5, 2, 2.5, 3, 4, 5, 7.3, 10, 30, 100, 1000, 1e4, 99999.5, 1e5)
 	}
 	for i := per(hx.N(48, 1600)); i > 0; i-- {
@@ -243,9 +245,14 @@ func distCases(r *hx.Rand) {
 	}
 	for _, nu := range nus {
 		d := stats.TDist{V: nu}
-		gridCase("tcdf", "nu="+fb(nu), d, stats.InvCDF(d), 0, 1, xGrid(r), "t+"+nuTag(nu), func(x float64) (float64, float64) {
-			arg := nu / (nu + x*x)
-			return arg, stats.VerifC12BetaInc(arg, nu/2, 0.5)
+		gridCase("tcdf", "nu="+fb(nu), d, stats.InvCDF(d), 0, 1, xGrid(r), "t+"+nuTag(nu), func(x float64) (float64, float64, float64) {
+			x2 := x * x
+			if x2 < nu {
+				arg := x2 / (nu + x2)
+				return arg, 0.5, stats.VerifC12BetaInc(arg, 0.5, nu/2)
+			}
+			arg := nu / (nu + x2)
+			return arg, nu / 2, stats.VerifC12BetaInc(arg, nu/2, 0.5)
 		})
 	}
 	for i := per(hx.N(40, 800)); i > 0; i-- {
@@ -268,9 +275,9 @@ func distCases(r *hx.Rand) {
 		if mu != 0 || sigma != 1 {
 			tag = "normal+scaled"
 		}
-		gridCase("ncdf", "mu="+fb(mu)+" sigma="+fb(sigma), d, d.InvCDF, mu, sigma, xs, tag, func(x float64) (float64, float64) {
+		gridCase("ncdf", "mu="+fb(mu)+" sigma="+fb(sigma), d, d.InvCDF, mu, sigma, xs, tag, func(x float64) (float64, float64, float64) {
 			z := -(x - mu) / (sigma * math.Sqrt2)
-			return z, math.Erfc(z)
+			return z, 0, math.Erfc(z)
 		})
 	}
 }
